@@ -47,3 +47,29 @@ Print Assumptions C05_enum_sound.
 Print Assumptions C05_enum_complete.
 Print Assumptions C05_enum47_complete.
 Print Assumptions C05_enum47_sound.
+
+(* ---------------------------------------------------------------------------------------------
+   For the R1CS builder and the calls of its modelled core (Frontend/BuilderR1CS.v, tied to the code instruction
+   by instruction, C04) the property holds over EVERY field, not only F_47: the set of (inputs, exposed outputs)
+   for which the emitted constraints have a satisfying assignment of the remaining wires is exactly the documented
+   relation - whatever a dishonest prover puts on hint outputs and internal wires ([w] is arbitrary) - with the
+   documented exceptions explicit in [trace_sem]/[sem] (DivUnchecked 0/0, raw hint outputs). *)
+From GnarkV Require Import Frontend.BuilderR1CS Frontend.BuilderR1CSProps Frontend.BuilderR1CSExact.
+From Coq Require Import ZArith.
+Theorem C05_r1cs_core_exact :
+  forall (F : Type) (zero one : F) (add mul sub : F -> F -> F) (opp : F -> F) (div : F -> F -> F) (inv : F -> F),
+  field_theory zero one add mul sub opp div inv (@eq F) ->
+  forall (eq_dec : forall x y : F, {x = y} + {x <> y}) (cst : Z -> F),
+  cst 0%Z = zero -> cst 1%Z = one -> cst 2%Z = add one one ->
+  forall (nbpub nbsec thr : nat) (prog : list Spec.op) (outs : list nat),
+  let st := b_compile F zero one add mul sub opp inv eq_dec cst nbpub nbsec thr prog outs in
+  b_err F st = false ->
+  forall vs0 ovals : list F, length vs0 = (nbpub + nbsec)%nat -> length ovals = length outs ->
+  (exists w, BuilderR1CSProps.good F zero one add mul w st /\
+     (forall i, i < nbpub + nbsec -> w (input_wire nbpub (length outs) i) = nth i vs0 zero) /\
+     (forall j, j < length outs -> w (S (nbpub + j)) = nth j ovals zero))
+  <->
+  (exists fin, BuilderR1CSProps.trace_sem F zero one add mul sub opp div inv eq_dec cst prog vs0 fin /\
+     forall j o, nth_error outs j = Some o -> nth o fin zero = nth j ovals zero).
+Proof. exact compile_exact. Qed.
+Print Assumptions C05_r1cs_core_exact.
